@@ -5,4 +5,17 @@ let run inp obs : string option * string option =
   | "C18T" :: proto :: oc :: _, "diff" :: what :: _ ->
     (Some (Printf.sprintf "installing a stats handler changed the %s response of a handler that sets header and trailer metadata (%s): %s" proto oc what), None)
   | _ -> (Some "unparsable C18T case", None)
-let () = Evalreg.register "C18T" run
+
+(* C18Z: the events of one HTTP-transcoded call with a Content-Encoding are one well-formed sequence
+   (EventsSpec.accepts: tag, in-header, begin, payloads, ..., exactly one end), or there are none *)
+let run_z inp obs : string option * string option =
+  match inp, obs with
+  | "C18Z" :: _, ["-"] -> (None, None)
+  | "C18Z" :: v :: _, [evs] ->
+    (try
+       let l = Stdlib.List.map C18.parse_ev (Stdlib.String.split_on_char ',' evs) in
+       if EventsSpec.accepts l then (None, None)
+       else (Some (Printf.sprintf "HTTP call with Content-Encoding (%s): the stats handler saw %s, which is not one complete event sequence (tag, in-header, begin, ..., exactly one end)" v evs), None)
+     with Failure e -> (Some ("HTTP call with Content-Encoding: " ^ e), None))
+  | _ -> (Some "unparsable C18Z case", None)
+let () = Evalreg.register "C18T" run; Evalreg.register "C18Z" run_z
